@@ -183,20 +183,34 @@ def check(ctx):
     # there - in particular when a baseline_margin column is ALREADY present (the file that save_output=['data'] writes)
     _margin_weights_rule(ctx, b)
 
-    # R3: every quotient stored by margin / add_turnout_factor is NaN/inf-guarded with zeros
+    # R3: every quotient stored by margin / add_turnout_factor is NaN/inf-guarded with zeros. Decided on the def-use terms of the columns
+    # the two functions store (helpers that did not exist when this was written are looked through, temporaries are substituted): a `/`
+    # must be the direct argument of nan_to_num(.., nan=0, posinf=0, neginf=0)
     nq = 0
-    for fn in (mf, tf):
-        for n in util.own_nodes(fn, ast.BinOp):
-            if not isinstance(n.op, ast.Div):
-                continue
-            nq += 1
-            par = getattr(n, "_parent", None)
-            guarded = (isinstance(par, ast.Call) and (util.dotted(par.func) or "").endswith("nan_to_num") and n in par.args
-                       and all(util.is_const(util.kwarg(par, k), 0) for k in ("nan", "posinf", "neginf")))
-            ctx.ob("C09.R3.guard", util.key(fn, n), guarded, fn.where(n),
-                   "quotient wrapped in nan_to_num(nan=0, posinf=0, neginf=0)" if guarded
-                   else "quotient can be NaN / inf when the denominator is 0 (not replaced by 0)")
-    ctx.sites("C09.R3", nq, 2, "quotients in margin / add_turnout_factor")
+    for fn, summ in ((mf, ms), (tf, ts)):
+        fr_ = summ.ret()[1][0] if summ.ret()[0] == "tuple" else summ.ret()
+        stored = []
+        t_ = fr_
+        while t_[0] == "setitem":
+            stored.append((t_[2], t_[3]))
+            t_ = t_[1]
+        seen_q = set()
+        for key_, val_ in stored:
+            guarded = set()
+            for x in ir.walk(val_):
+                if x[0] == "call" and ir.show(x[1]).endswith("nan_to_num") and x[2] and x[2][0][0] == "bin" and x[2][0][1] == "/":
+                    kw_ = dict(x[3])
+                    if all(kw_.get(k2) == ("const", 0) for k2 in ("nan", "posinf", "neginf")):
+                        guarded.add(x[2][0])
+            for x in ir.walk(val_):
+                if x[0] == "bin" and x[1] == "/" and x not in seen_q:
+                    seen_q.add(x)
+                    nq += 1
+                    ok_g = x in guarded
+                    ctx.ob("C09.R3.guard", f"{fn.qualname}|{ir.show(key_)} = .. {ir.show(x, maxdepth=2)[:60]}", ok_g, fn.where(),
+                           "quotient wrapped in nan_to_num(nan=0, posinf=0, neginf=0)" if ok_g
+                           else "quotient can be NaN / inf when the denominator is 0 (not replaced by 0)")
+    ctx.sites("C09.R3", nq, 2, "quotients in the columns stored by margin / add_turnout_factor")
 
     # ---- R5 defaults and argument binding -------------------------------------------------------
     ge = ctx.fn("elexmodel.client", "ModelClient.get_estimates")
